@@ -44,15 +44,83 @@ def ensure_repo_importable():
             raise RuntimeError("cannot import ioos_qc from %s (got %s)" % (REPO, got))
 
 
+class _ComprehensionRewrite(ast.NodeTransformer):
+    """The one source-level rewrite applied before compiling a private module copy:
+        [E for x in S]        ->  __pyvc_listcomp__(lambda x: E, S)
+        [E for x in S if C]   ->  __pyvc_listcomp__(lambda x: E, S, lambda x: C)
+        (E for x in S [if C]) ->  __pyvc_genexp__(lambda x: E, S[, lambda x: C])
+    for comprehensions with exactly one `for`, a plain-name (or tuple of names) target and no
+    `await`/walrus.  For real iterables the helpers evaluate the very same comprehension
+    (pyvc/seqmodel.py), so the rewrite is semantics-preserving; it exists only so that a symbolic
+    sequence can answer a comprehension with a mapped symbolic sequence.  Every other
+    comprehension is left as it is."""
+
+    def __init__(self):
+        self.count = 0
+
+    def _ok(self, node):
+        if len(node.generators) != 1:
+            return False
+        g = node.generators[0]
+        if g.is_async:
+            return False
+        tgt = g.target
+        names = [tgt] if isinstance(tgt, ast.Name) else (list(tgt.elts) if isinstance(tgt, ast.Tuple) else None)
+        if names is None or not all(isinstance(n, ast.Name) for n in names):
+            return False
+        for sub in ast.walk(node):
+            if isinstance(sub, (ast.NamedExpr, ast.Await, ast.Yield, ast.YieldFrom)):
+                return False
+        return True
+
+    def _lam(self, target, body):
+        if isinstance(target, ast.Name):
+            args = ast.arguments(posonlyargs=[], args=[ast.arg(arg=target.id)], kwonlyargs=[], kw_defaults=[], defaults=[])
+            return ast.Lambda(args=args, body=body)
+        # tuple target: lambda __t: (lambda a, b: body)(*__t)
+        inner = ast.Lambda(args=ast.arguments(posonlyargs=[], args=[ast.arg(arg=n.id) for n in target.elts], kwonlyargs=[], kw_defaults=[], defaults=[]), body=body)
+        call = ast.Call(func=inner, args=[ast.Starred(value=ast.Name(id="__pyvc_t", ctx=ast.Load()), ctx=ast.Load())], keywords=[])
+        return ast.Lambda(args=ast.arguments(posonlyargs=[], args=[ast.arg(arg="__pyvc_t")], kwonlyargs=[], kw_defaults=[], defaults=[]), body=call)
+
+    def _rewrite(self, node, helper):
+        self.generic_visit(node)
+        if not self._ok(node):
+            return node
+        g = node.generators[0]
+        args = [self._lam(g.target, node.elt), g.iter]
+        if g.ifs:
+            cond = g.ifs[0] if len(g.ifs) == 1 else ast.BoolOp(op=ast.And(), values=list(g.ifs))
+            args.append(self._lam(g.target, cond))
+        self.count += 1
+        return ast.copy_location(ast.Call(func=ast.Name(id=helper, ctx=ast.Load()), args=args, keywords=[]), node)
+
+    def visit_ListComp(self, node):
+        return self._rewrite(node, "__pyvc_listcomp__")
+
+    def visit_GeneratorExp(self, node):
+        return self._rewrite(node, "__pyvc_genexp__")
+
+
 def load_private(modname):
     """fresh private copy of a repo module, compiled from the working tree"""
+    from . import seqmodel
+
     ensure_repo_importable()
     path = repo_path(modname)
     name = "pyvc_target." + modname
-    spec = importlib.util.spec_from_file_location(name, path)
-    mod = importlib.util.module_from_spec(spec)
+    src = open(path).read()
+    tree = ast.parse(src, filename=path)
+    rw = _ComprehensionRewrite()
+    tree = ast.fix_missing_locations(rw.visit(tree))
+    code = compile(tree, path, "exec")
+    mod = types.ModuleType(name)
+    mod.__file__ = path
     mod.__pyvc_source__ = path
-    spec.loader.exec_module(mod)
+    mod.__pyvc_rewrites__ = rw.count
+    mod.__dict__["__pyvc_listcomp__"] = seqmodel.listcomp
+    mod.__dict__["__pyvc_genexp__"] = seqmodel.genexp
+    sys.modules[name] = mod
+    exec(code, mod.__dict__)  # noqa: S102
     return mod
 
 
